@@ -423,8 +423,8 @@ def dispatcher_records(sim, env, sink, run_id: str, counter: List[int]) -> None:
     fleets = sorted(env.fleet_ids) if len(env.fleet_ids) > 0 else [""]
     vehicles = list(sim.get_vehicles())
     requests = list(sim.get_requests())
-    if len(vehicles) > 8 or len(requests) > 9:
-        return
+    if (len(vehicles) > 8 or len(requests) > 9) and not (len(vehicles) <= 2 and len(requests) <= 1500):
+        return          # the optimum is computed inside TLC: small problems, or very lopsided ones
     # ONE call with all fleets, as the step pipeline makes it: its pairs are attributed to the fleet of their request
     # (every request of these worlds names exactly one fleet) and judged fleet by fleet like the separate calls below
     joint: Dict[str, List[Any]] = {f: [] for f in fleets}
@@ -466,6 +466,29 @@ def run_match(seed: int, work: Path, out_path: Path, steps: int = 6, focus: str 
 
     rng = random.Random(seed)
     w = adv.gen_world(rng, n_steps=max(steps, 10), focus=focus)
+    if focus == "flood":
+        # one or two vehicles and more than a thousand waiting requests at all kinds of distances
+        w = adv.gen_world(rng, n_steps=max(steps, 10), focus="match")
+        w["vehicles"] = [dict(v, soc=0.9) for v in w["vehicles"] if "schedule" not in v][: rng.randint(1, 2)] or \
+            [{"id": "v1", "lat": world.at(0, 0)[0], "lon": world.at(0, 0)[1], "mech": "leaf_50", "soc": 0.9}]
+        w.pop("fleets", None)
+        w["requests"] = []
+        w["preload"] = [{"id": f"f{k:04d}", "o": world.at(rng.uniform(-3000, 3000), rng.uniform(-3000, 3000)), "d": world.at(0, 0),
+                         "dep": 0, "pax": 1, "fleet": None} for k in range(rng.randint(1050, 1200))]
+        if rng.random() < 0.7:
+            # ... or: a thousand requests on one ring around the first vehicle and, last in every order, one a single cell
+            # closer - the margin of the optimum is as small as it can be
+            import h3
+
+            v0 = w["vehicles"][0]
+            c0 = h3.geo_to_h3(v0["lat"], v0["lon"], 15)
+            ring = sorted(h3.hex_ring(c0, 40))
+            n = rng.randint(1050, 1200)
+            w["preload"] = [{"id": f"f{k:04d}", "o": h3.h3_to_geo(ring[k % len(ring)]), "d": h3.h3_to_geo(c0), "dep": 0, "pax": 1, "fleet": None}
+                            for k in range(n)]
+            w["preload"].append({"id": "zzz_near", "o": h3.h3_to_geo(sorted(h3.hex_ring(c0, 39))[0]), "d": h3.h3_to_geo(c0), "dep": 0,
+                                 "pax": 1, "fleet": None})
+            w["vehicles"] = w["vehicles"][:1]
     scen = world.write_world(work / f"mworld{seed}", w)
     rp = world.load(scen, work / "out", suffix=f"m{seed}")
     if w.get("preload"):
